@@ -185,3 +185,22 @@ package alert
 //@     invariant forall p *bufHandler :: (forall i int :: 0 <= i && i < _i ==> t.handlers[i] != p) ==>
 //@       gf(p, delivered, int) == old(gf(p, delivered, int))
 
+
+// ---------------------------------------------------------------- topics.go: Collect under concurrent publishers (C09)
+// "every event published to a topic is recorded in it": several tasks may publish their first
+// event to a topic that does not exist yet at the same time. The registry is protected by a
+// read/write lock that Collect releases between looking the topic up and creating it, so whenever
+// it (re)acquires the lock the registry may have been changed by another publisher (`atlock`).
+// What must hold then: a topic that is registered under the name when Collect holds the lock is
+// never replaced -- the event goes to that topic (its recorded events stay reachable); only a
+// name that is still unregistered gets a new topic.
+//@ func (*Topic).collect
+//@   trusted
+//@   modifies nothing
+//@ func (*Topics).Collect
+//@   props C09
+//@   requires s != nil && s.topics != nil
+//@   modifies map(s.topics)
+//@   atlock modifies map(s.topics)
+//@   ensures [registered-topic-never-replaced] atlock(has(s.topics, event.Topic) && s.topics[event.Topic] != nil) ==> s.topics[event.Topic] == atlock(s.topics[event.Topic])
+//@   ensures [event-goes-to-registered-topic] called(collect) && has(s.topics, event.Topic) && callrecv(collect) == s.topics[event.Topic]
